@@ -5,6 +5,13 @@ def has(*tags):
     want = set(tags)
     return lambda t: bool(want & t)
 
+def buffer_probes(ops):
+    n = sum(1 for o in ops if o == "new")
+    out = ["slice", "size", "put 9001 9002"]
+    for i in range(n):
+        out += [f"diff {i}", f"get {i}", f"get {i}", f"rollback {i}", f"get {i}"]
+    return out + ["slice"]
+
 BUFFER_ASSUME = [
     "L1 layer: each critical section of Buffer.mutex (with the consumer mutex held around it) is one atomic step",
     "Go slices / append / map behave as lists and finite maps; int does not overflow for buffer offsets",
@@ -17,7 +24,8 @@ PROPS = {
                   "BB.Props.C01.get_returns_position", "BB.Props.C01.reads_are_put_order",
                   "BB.Props.C01.start_is_oldest_retained", "BB.Props.C01.stream_contiguous",
                   "BB.Props.C01.position_bounds"],
-        corr=[dict(family="buffer", quick=300, thorough=20000,
+        corr=[dict(family="buffer", quick=300, thorough=20000, probes=buffer_probes,
+                   observable={"put", "get", "slice", "new", "range", "brange"},
                    nontrivial=has("shift_with_delta", "cons_after_shift", "batch2"),
                    rule="buffer: generated Put/Get/Commit/Rollback/NewConsumer/Close/clean/Range scripts executed on the real Buffer "
                         "(cleaner driven through SetCleanerConfig, parked Gets detected through verif hooks) and on the Lean L1 model, "
@@ -31,7 +39,8 @@ PROPS = {
                   "BB.Props.C02.commit_advances", "BB.Props.C02.commit_permanent", "BB.Props.C02.read_at_or_after_committed",
                   "BB.Props.C02.empty_commit_rollback", "BB.Props.C02.range_failure_rolls_back",
                   "BB.Props.C02.range_panic_value_replayed", "BB.Props.C02.bufferRange_stops_at_end"],
-        corr=[dict(family="buffer", quick=300, thorough=20000,
+        corr=[dict(family="buffer", quick=300, thorough=20000, probes=buffer_probes,
+                   observable={"get", "commit", "rollback", "range", "brange", "diff"},
                    nontrivial=has("rollback_d2", "range_panicked", "brange_panicked", "range_blocked", "range_err:canceled",
                                   "brange_diffstop", "range_stopped", "brange_stopped"),
                    rule="buffer family (see C01); non-trivial = a rollback of >=2 uncommitted reads, or a Range/Buffer.Range that ended by "
@@ -50,10 +59,53 @@ PROPS = {
                    rule="cleaner: exhaustive sweep of DefaultCleaner over size<=6 x offset lists (len<=4 quick / <=5 thorough) over [-2,7], "
                         "FixedBufferCleaner over max,target in [-1,7] x size<=8 x lists len<=2, plus random large inputs; every call compared with "
                         "the Lean functions; non-trivial = offsets with a negative and a zero, an offset = or > size, a forced trim, target > max"),
-              dict(family="buffer", quick=200, thorough=10000,
+              dict(family="buffer", quick=200, thorough=10000, probes=buffer_probes,
+                   observable={"get", "slice", "size", "diff", "clean", "cleandef", "cleanfix"},
                    nontrivial=has("evict_unread", "past_error", "fixed_forced", "offs_neg_and_zero", "diff_gt_size"),
                    rule="buffer family (see C01) with DefaultCleaner / FixedBufferCleaner / arbitrary cleaner results (incl. <0 and >len); "
                         "non-trivial = a trim past a consumer's read position, a past-offset error, a forced trim, Diff > Size")],
         assumptions=BUFFER_ASSUME,
+    ),
+    "C13": dict(
+        lean_targets=["BB.Props.C13"],
+        theorems=["BB.Props.C13.inv_step", "BB.Props.C13.lossless_ordered", "BB.Props.C13.get_fresh_is_head",
+                  "BB.Props.C13.get_replays_in_order", "BB.Props.C13.rollback_marks_all", "BB.Props.C13.commit_drops_delivered",
+                  "BB.Props.C13.closed_source_no_value", "BB.Props.C13.nothing_taken_after_close", "BB.Props.C13.after_close_errors"],
+        corr=[dict(family="channel", quick=300, thorough=20000, mismatch_is_violation=True,
+                   nontrivial=has("rollback_after_partial_reread", "commit_partial_reread", "blocked_closed_src", "ctx_cancel", "get_after_srcclose"),
+                   rule="channel: generated send/Get/Commit/Rollback/Buffer/Close/cancel/close-source scripts on a real Channel over a buffered source "
+                        "(an empty poll is detected through a verif hook, then the Get context is cancelled) vs the Lean model, with buffer length and "
+                        "rollback count compared after every op and the source drained at the end; non-trivial = rollback/commit after a partial "
+                        "re-read, a poll of a closed source, a parent-context cancel, a Get after the source was closed")],
+        assumptions=["each Channel method body is one critical section of Channel.mutex (one model step)",
+                     "reflect.Value.TryRecv is modelled as: head of the queue if non-empty, else not-ok (also for a closed channel)"],
+    ),
+    "C18": dict(
+        lean_targets=["BB.Props.C18"],
+        theorems=["BB.Props.C18.unpack_not_fatal", "BB.Props.C18.unpack_wrap", "BB.Props.C18.cancelled_no_call", "BB.Props.C18.success_returns",
+                  "BB.Props.C18.fatal_returns_unwrapped", "BB.Props.C18.plain_prefix_retried", "BB.Props.C18.stops_at_first_success",
+                  "BB.Props.C18.bumpN_zero", "BB.Props.C18.counters_zero", "BB.Props.C18.delay_range"],
+        corr=[dict(family="retry", quick=200, thorough=20000, mismatch_is_violation=True,
+                   nontrivial=has("nested_fatal", "saturated", "cancel_during_call", "cancel_during_wait", "default_rate", "c_ge_31"),
+                   rule="retry: scripted outcome lists (plain error, fatal error nested 1-4 deep with/without result, success) with cancellation before the "
+                        "first call / during a call / during the k-th wait, run through the real ExponentialRetry with the delay calculation and the wait "
+                        "replaced through verif seams (counter values and rates recorded; the real waitDuration is checked to be cut short), plus the real "
+                        "calcExponentialRetry for all c in [0,40] (each result must be a whole number of slots < 2^min(c,31)); non-trivial = nested fatal, "
+                        ">=31 retries, cancel during a call or a wait, default rate, c>=31")],
+        assumptions=["math/rand's draw is a parameter of the model (any value in [0, 2^min(c,31)) )", "time is abstracted: waits are recorded, not slept"],
+    ),
+    "C19": dict(
+        lean_targets=["BB.Props.C19"],
+        theorems=["BB.Props.C19.call_total", "BB.Props.C19.passAll_exact", "BB.Props.C19.passOne_exact", "BB.Props.C19.ok_is_direct_call",
+                  "BB.Props.C19.expand_length", "BB.Props.C19.unguarded_panics"],
+        corr=[dict(family="callable", quick=300, thorough=20000, mismatch_is_violation=True,
+                   nontrivial=has("variadic", "untyped_nil_arg", "nil_target", "typed_nil_arg", "wrong_length"),
+                   rule="callable: generated signatures (arity 0-3, variadic or not, parameter/result types from {int,string,any,error,*int,[]int,map,func,chan,"
+                        "named int,*myErr}) x argument lists (well-typed, wrong kind, wrong length, typed nil, untyped nil) x result targets (CallResults / "
+                        "CallResultsSlice with valid, nil-pointer, non-pointer, untyped-nil, wrong-type targets); the callee is a reflect.MakeFunc function that "
+                        "records what it received; outcome, received arguments and stored results compared with the Lean model; non-trivial = variadic, "
+                        "untyped nil, nil target, typed nil, wrong length")],
+        assumptions=["reflect's contract (AssignableTo on the type universe, which operations panic) is modelled",
+                     "Call without a CallArgs option for a function that needs arguments is outside the property's scope"],
     ),
 }
